@@ -691,6 +691,12 @@ with SqlImpl.impl_store.impl_manager as impl:
     def _xor(lhs, rhs):
         return lhs != rhs
 
+    @impl(ops.neg)
+    def _neg(x):
+        # parenthesize: `-` directly in front of a negative literal would render as
+        # `--3`, which starts a SQL comment
+        return -sqa.sql.elements.Grouping(x)
+
     @impl(ops.pos)
     def _pos(x):
         return x
